@@ -46,6 +46,9 @@ def shards(tier, seed):
         out.append(("isprime_ex_%d" % i, dict(kind="isprime_ex", lo=-10 + i * (top + 10) // parts, hi=-10 + (i + 1) * (top + 10) // parts)))
     out.append(("isprime_adv", dict(kind="isprime_adv", nrand=2000 if q else 60000)))
     out.append(("isprime_large", dict(kind="isprime_large", big=not q)))
+    out.append(("isprime_proth", dict(kind="isprime_proth", mmax=3400 if q else 4000)))
+    for i in range(3 if q else 8):
+        out.append(("first_use_%d" % i, dict(kind="first_use", runs=40 if q else 300)))
     ntop = 1 << (14 if q else 17)
     for i in range(4):
         out.append(("nextprime_ex_%d" % i, dict(kind="nextprime_ex", lo=-3 + i * ntop // 4, hi=-3 + (i + 1) * ntop // 4)))
@@ -197,6 +200,29 @@ def run(ctx, name, kind, **kw):
             chk_isprime(ctx, p, True, "is_prime.large_prime", key="rand%d" % bits)
             q = nt.random_prime(bits // 2 + 1, rng)
             chk_isprime(ctx, q * nt.random_prime(bits // 2, rng), False, "is_prime.large_composite", key="semi%d" % bits)
+    elif kind == "isprime_proth":
+        # n = k * 2^m + 1 (n-1 has m trailing zero bits: the number of squarings in Miller-Rabin) for the published exponents of
+        # k = 3, 5, 7; every candidate is certified by the reference before it is used
+        known = {3: (1, 2, 5, 6, 8, 12, 18, 30, 36, 41, 66, 189, 201, 209, 276, 353, 408, 438, 534, 2208, 2816, 3168, 3189, 3912),
+                 5: (1, 3, 7, 13, 15, 25, 39, 55, 75, 85, 127, 1947, 3313),
+                 7: (2, 4, 6, 14, 20, 26, 50, 52, 92, 120, 174, 180, 190, 290, 320, 390, 432, 616, 830, 1804, 2256)}
+        for k_, ms in known.items():
+            for m in ms:
+                if m > kw["mmax"]:
+                    continue
+                n = k_ * (1 << m) + 1
+                if not nt.is_prime(n, 2, rng):
+                    ctx.count("proth_candidate_not_prime_by_reference")
+                    continue
+                chk_isprime(ctx, n, True, "is_prime.proth", key="%d*2^%d+1" % (k_, m))
+                if n < 1 << 64:
+                    chk_isprime(ctx, n + 2, nt.is_prime(n + 2), "is_prime.proth", key="neighbour")
+        # and a few found here: smallest k for exponents around every hundred
+        for m in range(100, min(kw["mmax"], 1500) + 1, 100):
+            k_ = 1
+            while not nt.is_prime(k_ * (1 << m) + 1, 2, rng):
+                k_ += 2
+            chk_isprime(ctx, k_ * (1 << m) + 1, True, "is_prime.proth", key="found|%d" % m)
     elif kind == "nextprime_ex":
         lo, hi = kw["lo"], kw["hi"]
         s = nt.sieve(hi + 400)
@@ -308,7 +334,23 @@ def run(ctx, name, kind, **kw):
         for n in (2 * 1231 * 1237, 1231 ** 2, 2 ** 10 * 3 ** 5 * 1249, 1000003 * 17, 360360):
             jobs.append(("factorization", NT.factorization, (n,), nt.factor(n)))
         jobs += [("gcd", NT.gcd, (12 * 1231, 18 * 1231, 30 * 1231), 6 * 1231), ("lcm", NT.lcm, ([4, 6, 10],), 60)]
-        S.concurrent_purity(ctx, S.codes_of(NT, {"is_prime", "next_prime", "factorization", "gcd", "lcm", "gcd2", "lcm2"}), jobs, rng, kw["runs"])
+        names = {"is_prime", "next_prime", "factorization", "gcd", "lcm", "gcd2", "lcm2"}
+        S.concurrent_purity(ctx, S.codes_of(NT, names), jobs, rng, kw["runs"])
+        S.reentrant_purity(ctx, S.codes_of(NT, names), jobs, rng, max(12, kw["runs"] // 6))
+
+    elif kind == "first_use":
+        # the first calls ever made into a fresh instance of the package are the concurrent ones (lazily built tables, memos):
+        # every run re-imports the package privately and lets 2-3 threads make their first calls under the scheduler
+        from vf import sched as S
+        spec = []
+        for n in (2, 3, 5, 97, 641, 1201, 1213, 1223, 1229, 1231, 1, 0, 4, 1227, 1231 * 1237, 2 ** 31 - 1, 3215031751, 2 ** 61 - 1):
+            spec.append(("is_prime", (n,), nt.is_prime(n)))
+            spec.append(("next_prime", (n,), nt.next_prime(n)))
+        for n in (2 * 1231 * 1237, 1231 ** 2, 360360, 97, 1229 * 2):
+            spec.append(("factorization", (n,), nt.factor(n)))
+        S.first_use_purity(ctx, lambda M: S.codes_of(M.numbertheory, {"is_prime", "next_prime", "factorization", "gcd", "gcd2", "lcm", "lcm2"}) +
+                           [c for c in S.codes_of(M.numbertheory) if c.co_name.startswith("_")],
+                           lambda M: [(lab, getattr(M.numbertheory, lab), args, exp) for lab, args, exp in spec], rng, kw["runs"])
     elif kind == "seams":
         # block / window sizes written into next_prime's own code are candidate seams: for each integer literal c found there, take
         # prime gaps LONGER than c (found with the reference at a size where such gaps are common) and ask for the next prime from
